@@ -284,6 +284,77 @@ func (c Case) chunkData() ([][]byte, error) {
 	return out, nil
 }
 
+// refFrameBits is the harness's own reading of the frame-bit pattern (bit 0 of byte 2 of every 4-byte word):
+// q = first word whose frame bit is set after a word where it is clear, n = number of consecutive set words from
+// there, p = next such edge behind them. Used only to classify INPUTS (tags); it is not dastard code.
+func refFrameBits(b []byte) (q, p, n int, ok bool) {
+	bit := func(w int) bool { return b[4*w+2]&1 == 1 }
+	nw := (len(b) + 1) / 4
+	seen := false
+	q = -1
+	for w := 0; w < nw; w++ {
+		if seen {
+			if bit(w) {
+				q = w
+				break
+			}
+		} else {
+			seen = !bit(w)
+		}
+	}
+	if q < 0 {
+		return 0, 0, 0, false
+	}
+	for w := q; w < nw && bit(w); w++ {
+		n++
+	}
+	prev := true
+	for w := q + n; w < nw; w++ {
+		if prev && !bit(w) {
+			prev = false
+		} else if !prev && bit(w) {
+			return q, w, n, true
+		}
+	}
+	return q, 0, n, false
+}
+
+// classifyInRead: a word-aligned loss that is not met as "gap-met-at-read-start". Either the reader sees it within
+// the first two frame starts of a read (the geometry test fails and the read is given up, or the frame start found
+// lies late: the NEXT block reports the loss) or the cut lies deeper in a read whose head looks fine (frames
+// behind the cut are delivered without a drop report: the recorded finding).
+func classifyInRead(stream []byte, ds []int, R, pos, ncols, nrows int) string {
+	W := ncols * nrows
+	fs := 4 * W
+	for _, D := range ds {
+		if D > len(stream) {
+			D = len(stream)
+		}
+		L := D - R
+		if L < 3*fs {
+			continue
+		}
+		q, p, n, ok := refFrameBits(stream[R:D])
+		if !ok || n != ncols || (p-q)/n != nrows {
+			if L%4 != 0 {
+				// the whole read is given up, and its length is not a multiple of 4: the reader itself shifts
+				// the word grid and never finds the frames again (part of the recorded finding)
+				return "gap-word-aligned-inside-read"
+			}
+			return "gap-in-first-two-frames"
+		}
+		if q != W {
+			return "gap-in-first-two-frames"
+		}
+		m := L / fs
+		if R+m*fs > pos {
+			return "gap-word-aligned-inside-read"
+		}
+		R += m * fs
+	}
+	return "gap-never-processed"
+}
+
 // features of the input (for the evidence histogram and the finding matchers)
 func inputTags(c Case, data [][]byte) (tags map[string]bool, nontrivial bool) {
 	tags = map[string]bool{"kind-" + c.Kind: true}
@@ -343,7 +414,20 @@ func inputTags(c Case, data [][]byte) (tags map[string]bool, nontrivial bool) {
 			case g < fs && (g/4 < t0/4 || (t0 == 0 && g/4 > c.Ncols)):
 				tags["gap-met-at-read-start"] = true
 			default:
-				tags["gap-word-aligned-inside-read"] = true
+				// neither: follow the reader's bookkeeping (frame-bit pattern of the INPUT only) to see how the cut is met
+				var ds []int
+				dd := D - n
+				for j := i; j < len(c.Ops); j++ {
+					if c.Ops[j].Op == "C" {
+						dd += len(data[j])
+						ds = append(ds, dd)
+					}
+				}
+				var all []byte
+				for j := range c.Ops {
+					all = append(all, data[j]...)
+				}
+				tags[classifyInRead(all, ds, R, c.GapPos, c.Ncols, c.Nrows)] = true
 			}
 			postGap = true
 			continue
